@@ -477,6 +477,10 @@ func ballotsVal(w *world, _, _, v string) []byte {
 		arr = []stackitem.Item{mk("b1", w.ballotH)}
 	case "mixed":
 		arr = []stackitem.Item{mk("b1", -1000), mk("b2", w.ballotH)}
+	case "mixedrev": // the fresh ballot FIRST, a stale one last (Vote refreshes a ballot's height in place, so this order occurs)
+		arr = []stackitem.Item{mk("b1", w.ballotH), mk("b2", -1000)}
+	case "freshmid": // stale, fresh, stale
+		arr = []stackitem.Item{mk("b1", -1000), mk("b2", w.ballotH-3), mk("b3", -900)}
 	case "many": // eight stale ballots
 		for i := 0; i < 8; i++ {
 			arr = append(arr, mk("b"+strconv.Itoa(i), -1000-int64(i)))
